@@ -97,4 +97,11 @@ func factsRaftGlue() {
 			unrec("boot_rule_guarded", "bool", "startRaftNode changed")
 		}
 	}
+	// partition.addNode: a replica added to a running group starts its raft node with no peers (it takes the group's log)
+	if an, fd := bodyText("storage/partition.go", "partition", "addNode"); fd == nil {
+		unrec("add_node_joins_existing_log", "bool", "partition.addNode not found")
+	} else {
+		known("add_node_joins_existing_log", "bool", b(an == "{ this.meta.NodeIds = append(this.meta.NodeIds, nodeId) if nodeId == this.raftTransport.NodeId() { this.loadRaft(nil) } }"),
+			"addNode: own id -> loadRaft(nil); body: "+an)
+	}
 }
